@@ -163,6 +163,17 @@ class Gen:
         elif c < .5: s = ''.join(ch.lower() if rng.random() < .5 else ch for ch in s)
         return s
 
+    def float_text(self, v: bytes):
+        """whole-number text of the float32 with these 4 bytes (None when it has none: fractions, nan, inf, -0.0)"""
+        import struct, math
+        if len(v) != 4: return None
+        x = struct.unpack('!f', v)[0]
+        if math.isnan(x) or math.isinf(x) or (x == 0 and math.copysign(1, x) < 0): return None
+        if x != int(x) or abs(x) >= 1e15: return None       # the DIV_FLOAT / MOD_FLOAT operand encoder accepts whole numbers only after `f`
+        t = str(int(x))
+        if struct.pack('!f', float(t)) != v: return None
+        return t
+
     def val_sym(self, v: bytes, allow=('x', 'd', 's')):
         """a value symbol that denotes exactly the bytes v"""
         rng = self.rng
@@ -311,7 +322,9 @@ class Gen:
                     if t_.isalnum(): ks = 's"' + t_ + '"'
                 except UnicodeDecodeError: pass
             return [s, ks, ('d' + str(cnt)) if rng.random() < .6 else 'x%02x' % cnt]
-        if k == 'f4': return [s, 'x' + n[2].hex()]
+        if k == 'f4':
+            ft = self.float_text(n[2])
+            return [s, 'f' + ft] if ft is not None and rng.random() < .5 else [s, 'x' + n[2].hex()]
         if k == 'swap': return [s] + [self.pos_sym(x) for x in n[2:4]]
         if k == 'multisig': return [s] + [self.pos_sym(x) for x in n[2:5]]
         if k == 'bytes32': return [s, 'x' + n[2].hex()]
